@@ -5,6 +5,9 @@ import (
 	"os"
 )
 
+// childMain runs helper child processes (pty programs etc.); extended elsewhere.
+var childMain = func(args []string) int { return 2 }
+
 func main() {
 	if len(os.Args) < 2 {
 		fmt.Fprintln(os.Stderr, "usage: harness <gen|corr|...> ...")
@@ -17,6 +20,15 @@ func main() {
 		os.Exit(cmdFreezeDoc())
 	case "corr":
 		os.Exit(cmdCorr(os.Args[2:]))
+	case "scen":
+		os.Exit(cmdScen(os.Args[2:]))
+	case "child":
+		if len(os.Args) > 2 && os.Args[2] == "seqrawnil" {
+			os.Exit(childSeqRawNil())
+		}
+		os.Exit(childMain(os.Args[2:]))
+	case "facts":
+		os.Exit(cmdFacts())
 	case "gen":
 		os.Exit(cmdGen(os.Args[2:]))
 	default:
